@@ -136,6 +136,7 @@ class Program:
     def __init__(self):
         self.funcs = {}          # name -> Func (unique names)
         self.multi = {}          # name -> [Func]  (macro-generated duplicates)
+        self.const_multi = {}    # const name -> [Func] in textual order
         self.enums = {}          # enum name -> [variants]   (repo enums; on name collision: list of lists)
         self.structs = set()
         self.impl_methods = {}   # (trait or None, method) -> [ImplFn]
@@ -338,7 +339,8 @@ class Program:
                 if mm and not t.startswith('Pin<'):
                     self.closures[mm.group(1)] = f
             if f.kind == 'const':
-                self.consts[name] = f
+                self.const_multi.setdefault(name, []).append(f)
+                self.consts.setdefault(name, f)
                 if m and not m.group(3):
                     # associated constant of an inherent impl: also reachable as `Type::NAME` (how MIR operands name it)
                     loc = m.group(1)
